@@ -93,12 +93,16 @@ def evaluate(prop, n):
 
 
 def main():
-    props = sys.argv[1:] or sorted(os.listdir(STAGE))
+    args = sys.argv[1:]
+    only = {a for a in args if '/' in a}          # e.g. C01/5: just that seed
+    props = sorted({a.split('/')[0] for a in args}) or sorted(os.listdir(STAGE))
     for prop in props:
         d = os.path.join(STAGE, prop)
         if not os.path.isdir(d):
             continue
         for n in sorted(os.listdir(d)):
+            if only and any(a.startswith(prop + '/') for a in only) and f'{prop}/{n}' not in only:
+                continue
             meta = evaluate(prop, n)
             if meta is None:
                 continue
